@@ -487,6 +487,19 @@ def fold_loop(c):
     if not (isinstance(itv, Iter) and isinstance(fc, Struct) and fc.tag and fc.tag in c.it.prog.bodies and not itv.maps and not itv.enumerated):
         return None
     cb = c.it.prog.bodies[fc.tag]
+    listed = listed_elems(itv)
+    if listed is not None and len(listed) <= 16 and op == "fold":
+        # elements known one by one: the closure is applied to each in order, exactly
+        states = [(c.st, init)]
+        for i, x in enumerate(listed):
+            nxt = []
+            for st_, acc_ in states:
+                res = c.call_closure(st_, f, [acc_, x], "ff%d" % i)
+                if res is None:
+                    return None
+                nxt.extend(res)
+            states = nxt
+        return states
     elem = summ(itv.items) if isinstance(itv.items, V) and not isinstance(itv.items, Empty) else None
     acc_cell = "%s/%d.%d:acc" % (c.fr.id, c.bb, c.part)
     elem_prefix = "%s/%d.%d:elem" % (c.fr.id, c.bb, c.part)
